@@ -387,3 +387,7 @@ def run(ctx):
     r2(ctx)
     r3(ctx)
     r4(ctx)
+    import rules.C10 as c10
+    ctx.borrow(c10.r1, {'C10.R1': 'C13.R5'},
+               'a numeric condition reads the referenced field through the numeric DataFieldSet::read; it must locate the '
+               'field at the same byte/bit position as the length computation and the text decoder do')
